@@ -81,12 +81,29 @@ impl TcpListener {
             // host. A request that reuses the pair of a stream that is still
             // open here (the peer recycled an ephemeral port) cannot be told
             // apart from it: refuse the request instead of accepting it.
-            let in_use = World::current(|world| {
+            //
+            // The connector's half-open socket may also be gone although its
+            // connect future still waits (a reset or a stale stream handle of
+            // an earlier connection with the same pair removed it): such a
+            // request can only be refused as well.
+            let (in_use, connector_gone) = World::current(|world| {
                 let host = world.current_host_mut();
-                let local = self.accepted_local_addr(origin, host.addr);
-                host.tcp.has_stream(SocketPair::new(local, origin))
+                let host_addr = host.addr;
+                let local = self.accepted_local_addr(origin, host_addr);
+                let in_use = host.tcp.has_stream(SocketPair::new(local, origin));
+                let client_ip = if origin.ip().is_loopback() {
+                    host_addr
+                } else {
+                    origin.ip()
+                };
+                let connector_gone = !world
+                    .hosts
+                    .get(&client_ip)
+                    .map(|h| h.tcp.has_stream(SocketPair::new(origin, local)))
+                    .unwrap_or(false);
+                (in_use, connector_gone)
             });
-            if in_use {
+            if in_use || connector_gone {
                 drop(syn);
                 continue;
             }
